@@ -21,6 +21,8 @@ def check(run):
     ec.run_family_js(run, 'C07-js-alias-after-boolean-operator', 'Q_C07bool', 'R_2x2', maxA=1, hdrmodes=(False, True))
     ec.run_family_js(run, 'C07-js-aggregates', 'Q_C07agg', 'R_2x2', maxA=1, hdrmodes=(False, True))
     ec.run_family_js(run, 'C07-js-except', 'Q_C01exc', 'R_w3N', maxA=1, hdrmodes=(False, True))
+    ec.run_family(run, 'C07-except-distinct', 'Q_C07exc', 'R_w3N', maxA=1, hdrmodes=(False, True), opts={'nontrivial_rule': 'header'})
+    ec.run_family_js(run, 'C07-js-except-distinct', 'Q_C07exc', 'R_w3N', maxA=1, hdrmodes=(False, True))
     ec.run_family(run, 'C07-update-except', 'Q_C05swap', 'R_2x2', maxA=1, hdrmodes=(False, True), opts={'nontrivial_rule': 'header'})
     ec.run_family(run, 'C07-except', 'Q_C01exc', 'R_w3N', maxA=1, hdrmodes=(False, True), opts={'nontrivial_rule': 'header'})
     run.exhaustive = True
